@@ -27,6 +27,12 @@
 // whether or not they are one address, spell.go), retry (real scheduler;
 // requesters that ask again the moment they are told of a failure) and parked
 // (dial errors whose Error() method parks while requests are made), retry.go.
+//
+// Every argument of Manager.Connection is per-request data of the stepwise
+// engine (dialers.go): the dialer name (several registered dialers that behave
+// differently, unregistered names, names this case's Manager was built without)
+// and the context (background, cancelled, deadline in virtual time). Part
+// dialers (dialers_test.go) combines them freely on one address.
 package connprop
 
 import (
@@ -43,6 +49,10 @@ type Scenario struct {
 	Names   []string `json:"names,omitempty"`
 	Threads int      `json:"threads"` // 2..8 requester threads (a thread has at most one Connection call outstanding)
 	Steps   []Step   `json:"steps"`
+	// Unreg: indices into dialerTable (dialers.go) of dialer names that this
+	// case's Manager is built WITHOUT (a request naming one of them names an
+	// unregistered dialer). Empty: every name the table marks as registered is.
+	Unreg []int `json:"unreg,omitempty"`
 }
 
 // Step kinds (all indices are taken modulo the number of candidates that exist
@@ -59,6 +69,12 @@ type Scenario struct {
 //	       function and the publication of its result). F: if this request
 //	       starts a dial, the dial function returns at once (1 = a fresh
 //	       connection, 2 = an error) instead of parking until a fin step.
+//	       Dn: the dialer NAME the request passes (index into dialerTable,
+//	       dialers.go; 0 = connection.DEFAULT) - whatever is pending, held or
+//	       just released for A, so requests for ONE address name different
+//	       dialers; Dl: the context carries a deadline in virtual time (1: 2s,
+//	       2: 10s, 3: 1h, 4: already expired), which tick steps let expire while
+//	       the request waits, holds, or after it released.
 //	fin    the I-th dial function that is parked returns: OK = a fresh idle
 //	       connection, otherwise an error. G: arm conn.dial.result first.
 //	rel    the I-th unreleased handle is released (done()). All: then every
@@ -117,6 +133,8 @@ type Step struct {
 	Dur int    `json:"dur,omitempty"`
 	N   int    `json:"n,omitempty"`
 	X   bool   `json:"x,omitempty"`
+	Dn  int    `json:"dn,omitempty"`
+	Dl  int    `json:"dl,omitempty"`
 }
 
 func (s Step) String() string {
@@ -131,6 +149,12 @@ func (s Step) String() string {
 		}
 		if s.B {
 			f = append(f, "unknown-dialer")
+		}
+		if s.Dn != 0 {
+			f = append(f, "dialer:"+dialerTable[mod(s.Dn, len(dialerTable))].label)
+		}
+		if s.Dl != 0 {
+			f = append(f, "deadline:"+deadlineName(s.Dl))
 		}
 		if s.G {
 			f = append(f, "gate:"+pointWait)
